@@ -22,7 +22,7 @@ def spec(tier, seed):
         certs += [replace(b, issuance=2, aki=True, san=(0,)), replace(b, nc=2, nc_perm=(2,), nc_excl=(3,), is_ca=2),
                   replace(b, aki=True, san=(1, 3), ku=4, eku=(1, 2), nc=2, nc_perm=(1,), nc_excl=(3,), crl_dps=(2,), is_ca=3, path_len=5, custom=2)]
     csrs = [CsrShape(), CsrShape(ku=1), CsrShape(san=(1,), eku=(1,), attrs=2)]
-    crls = [CrlShape(), CrlShape(revoked=(2,)), CrlShape(idp=2), CrlShape(revoked=(0, 3), idp=3, invalidity=1)]
+    crls = [CrlShape(), CrlShape(revoked=(2,)), CrlShape(idp=1), CrlShape(idp=2), CrlShape(revoked=(0, 3), idp=3, invalidity=1)]
     qs = [cert_query("c05", s, O_C05) for s in certs]
     # automatic-serial shapes are not run: see "outside" (the transmuted ring::digest::Digest defeats CBMC's constant propagation,
     # which makes the serial's length - the second field of the TBS - symbolic and the whole query intractable)
